@@ -77,6 +77,11 @@ REV=[
  ("timestamp text outside the range of google.protobuf.Timestamp was decoded without error",["C03"],"R-ERR/E4t"),
  ("data after the end of the JSON document was silently ignored",["C03"],"R-ERR/E4e"),
  ("an explicit null for an absent oneof arm was counted as a second key",["C03"],"R-ERR/E4n"),
+ ("query parameters were applied in map order",["C03"],"R-DET/N1"),
+ ("every message with a field 'keys' of an entity's keys type was reflected as that entity's keys part",["C17", "C16"],"R-PROV/entitypart"),
+ ("a description without words was formatted to a blank line",["C09"],"R-COVER/nonempty"),
+ ("descriptions with repeated or trailing blanks wrapped differently on a second format",["C09"],"R-CONST/words"),
+ ("the default status filter of an entity named status values which do not exist",["C17"],"R-PROV/statusname"),
 ]
 n=0
 for sub,props,expect in REV:
